@@ -460,3 +460,29 @@ pub fn run(tier: Tier, seed: u64, replay: Option<&str>) -> i32 {
     ev.write();
     code
 }
+
+
+/// libFuzzer entry: bytes -> calls on a device of 4..64 data blocks.
+pub fn fuzz_entry(data: &[u8]) -> Result<(), String> {
+    if data.is_empty() {
+        return Ok(());
+    }
+    let n = 4 + (data[0] as usize % 60);
+    let (mut m, mut r) = fresh(n);
+    let mut notes = Notes::default();
+    let total = START + n as u64;
+    for (i, c) in data[1..].chunks(3).enumerate() {
+        let b = |j: usize| c.get(j).copied().unwrap_or(0) as u64;
+        let call = match b(0) % 6 {
+            0 | 1 => FsCall::Alloc(b(1) % 9),
+            2 | 3 => FsCall::Release(14 + b(1) % (n as u64 + 4), b(2) % 9),
+            4 => FsCall::Release(START + b(1) % n as u64, 1 + b(2) % 3),
+            _ => {
+                let big = [u64::MAX, u64::MAX - 1, u64::MAX - total, 1u64 << 63, total, total + 1, 0];
+                FsCall::Release(big[(b(1) % 7) as usize].wrapping_add(b(2) % 3), big[(b(2) % 7) as usize])
+            }
+        };
+        apply(&mut m, &mut r, call, &mut notes).map_err(|e| format!("device with {n} data blocks, call {i} {call:?}: {e}"))?;
+    }
+    Ok(())
+}
